@@ -264,7 +264,8 @@ def run_scenario(world, requests, env0):
                 ok, outcome = False, "raise:" + type(ex).__name__
             after = dict(os.environ)
             rec = {"request": rq, "before": before, "after": after if ok else before,
-                   "raw_after": after, "aliases": dict(e.aliases), "ok": bool(ok), "outcome": outcome,
+                   "raw_after": after, "aliases": dict(e.aliases), "old_aliases": sorted(e.oldAliases), "ok": bool(ok),
+                   "outcome": outcome,
                    "decisions": list(log), "decision_names": list(names)}
             records.append(rec)
             if ok:
